@@ -2,7 +2,16 @@
 
 package knx
 
-import "sync"
+import (
+	"errors"
+	"math"
+	"strings"
+	"sync"
+	"sync/atomic"
+	"time"
+)
+
+var errSelfTest = errors.New("selftest")
 
 func init() {
 	verifHarnesses["HarnessSelfTestConc"] = HarnessSelfTestConc
@@ -116,6 +125,46 @@ func HarnessSelfTestConc(a []int) {
 		r := f()
 		verifObserve("r", r)
 		verifAssert("self.recover", r == x+1)
+	case 4: // sync/atomic and RWMutex
+		var n int32
+		var flag atomic.Bool
+		var rw sync.RWMutex
+		var wg sync.WaitGroup
+		shared := 0
+		for i := 0; i < 2; i++ {
+			wg.Add(1)
+			go func() {
+				defer wg.Done()
+				atomic.AddInt32(&n, int32(x))
+				flag.Store(true)
+				rw.Lock()
+				shared++
+				rw.Unlock()
+			}()
+		}
+		wg.Wait()
+		rw.RLock()
+		got := shared
+		rw.RUnlock()
+		swapped := atomic.CompareAndSwapInt32(&n, int32(2*x), 7)
+		verifObserve("n", atomic.LoadInt32(&n))
+		verifAssert("self.atomic", swapped && atomic.LoadInt32(&n) == 7 && flag.Load() && got == 2)
+	case 5: // math helpers on a symbolic float, errors.Is, strings.Builder, Timer
+		f := float64(int(x)-100) / 8
+		verifObserve("floor", math.Floor(f))
+		verifObserve("ceil", math.Ceil(f))
+		verifObserve("round", math.Round(f))
+		verifObserve("trunc", math.Trunc(f))
+		verifObserve("abs", math.Abs(f))
+		var sb strings.Builder
+		sb.WriteString("ab")
+		sb.WriteByte(byte('0' + x%10))
+		verifObserve("len", len(sb.String()))
+		tm := time.NewTimer(time.Millisecond)
+		<-tm.C
+		stopped := tm.Stop()
+		tm.Reset(time.Hour)
+		verifAssert("self.misc", errors.Is(errSelfTest, errSelfTest) && !stopped && tm.Stop() && math.Floor(f) <= f && f <= math.Ceil(f))
 	}
 	verifCover("self.end")
 }
